@@ -14,6 +14,9 @@ import (
 	"github.com/hrissan/tdigest"
 	"pgregory.net/rand"
 
+	"github.com/VKCOM/statshouse/internal/data_model/gen2/tlstatshouse"
+	"github.com/VKCOM/statshouse/internal/format"
+
 	"github.com/VKCOM/statshouse/internal/zzverif/verifkit"
 )
 
@@ -227,6 +230,7 @@ func c04GenValueCase(rnd *mrand.Rand) c04ValueCase {
 	counterOnly := rnd.IntN(8) == 0
 	ties := rnd.IntN(3) == 0
 	scaled := c.exact && !counterOnly && rnd.IntN(3) == 0
+	ranges := c.exact && !counterOnly && !scaled && rnd.IntN(3) == 0 // every leaf is a [lo, hi] range: enclosing, enclosed, overlapping, disjoint, equal
 	for l := 0; l < nLeaves; l++ {
 		nEv := 1
 		if rnd.IntN(3) == 0 {
@@ -241,6 +245,18 @@ func c04GenValueCase(rnd *mrand.Rand) c04ValueCase {
 			}
 			if counterOnly {
 				kind = 0
+			}
+			if ranges {
+				lo := rnd.IntN(11)
+				hi := lo + rnd.IntN(11-lo)
+				e.Kind, e.Vals, e.Total = "A", []float64{float64(lo), float64(hi)}, 2
+				if rnd.IntN(3) != 0 {
+					e.Count = 2
+				} else {
+					e.Count = float64(2 * (1 + rnd.IntN(5)))
+				}
+				evs = append(evs, e)
+				continue
 			}
 			switch {
 			case kind < 3:
@@ -540,6 +556,43 @@ func c04RunValues(r *verifkit.Run, w *verifkit.Worker, n int, trials int) {
 				bad("unique-small/size", "unique estimate %d, %d distinct values contributed", o.uniq, refUniq.Size(false))
 			}
 		}
+		// The aggregator receives every agent contribution in wire form: MultiValueToTL → TL bytes → MergeWithTL2.  It is mixed
+		// with the in-memory Merge inside the same permutations and trees when the wire form carries the contribution
+		// unchanged: integer-valued case (the receiver rejects sums beyond ±MaxFloat32), no empty host tag (an absent
+		// host is replaced by the sender's), counter > 0 (a value without counter is not sent at all).
+		wireOK := c.exact && !hostSet[TagUnion{}]
+		wireBroken := false
+		mergeStep := func(dst, src *MultiValue) {
+			if !wireOK || src.Value.Count() <= 0 || rnd.IntN(2) == 0 {
+				dst.Merge(rng, src)
+				return
+			}
+			var item tlstatshouse.MultiItem
+			src.MultiValueToTL(&format.MetricMetaValue{}, &item.Tail, 1, &item.FieldsMask, nil)
+			var ib tlstatshouse.MultiItemBytes
+			if _, err := ib.ReadTL1(item.WriteTL1(nil)); err != nil {
+				wireBroken = true
+				return
+			}
+			if e := dst.MergeWithTL2(rng, &ib.Tail, ib.FieldsMask, TagUnion{}, AggregatorPercentileCompression); e != 0 {
+				wireBroken = true
+			}
+			w.Count("values.steps.wire_form_merge", 1)
+		}
+		wireJudge := func(how string, res *MultiValue) {
+			if wireBroken {
+				w.R.NotJudged("values.trial_with_rejected_wire_form", 1)
+				wireBroken = false
+				return
+			}
+			if wireOK {
+				how += "+MergeWithTL2"
+			}
+			judge(how, res, true)
+		}
+		if wireOK {
+			w.Count("values.cases.with_wire_form_merges", 1)
+		}
 		nl := len(leaves)
 		for trial := 0; trial < trials; trial++ {
 			perm := rnd.Perm(nl)
@@ -553,9 +606,9 @@ func c04RunValues(r *verifkit.Run, w *verifkit.Worker, n int, trials int) {
 				}
 				for _, p := range perm[start:] {
 					x := c04CloneMV(&leaves[p])
-					acc.Merge(rng, &x)
+					mergeStep(&acc, &x)
 				}
-				judge("perm/MultiValue.Merge", &acc, true)
+				wireJudge("perm/MultiValue.Merge", &acc)
 				w.Count("values.trials.perm", 1)
 			case 1: // random binary tree, MultiValue.Merge
 				items := make([]MultiValue, nl)
@@ -564,10 +617,10 @@ func c04RunValues(r *verifkit.Run, w *verifkit.Worker, n int, trials int) {
 				}
 				for len(items) > 1 {
 					i := rnd.IntN(len(items) - 1)
-					items[i].Merge(rng, &items[i+1])
+					mergeStep(&items[i], &items[i+1])
 					items = append(items[:i+1], items[i+2:]...)
 				}
-				judge("tree/MultiValue.Merge", &items[0], true)
+				wireJudge("tree/MultiValue.Merge", &items[0])
 				w.Count("values.trials.tree", 1)
 			case 2: // random binary tree over ItemValue only
 				items := make([]ItemValue, nl)
